@@ -81,8 +81,11 @@ def handle (line : String) : String :=
       -- a re-key that fails (host key rejected): nothing of the application may follow our KEXINIT
       match parseList parseItem (i.str "cwire") with
       | some cwire =>
-        if wireOK cwire then "ok"
-        else "client: application packets on the wire after the KEXINIT of a key exchange that failed (no NEWKEYS)"
+        if !wireOK cwire || i.str "fk" != "0" then
+          "client: application packets on the wire after the KEXINIT of a key exchange that failed (no NEWKEYS)"
+        else if i.str "wok" != "0" then "client: writePacket succeeded after the key exchange had failed (writeError not kept)"
+        else if i.str "st" != "failkex" then s!"failed-re-key scenario did not run: {i.str "st"}"
+        else "ok"
       | none => "bad-impl"
     else
     match o.nat? "n", o.nat? "cw", o.nat? "sw",
